@@ -43,6 +43,15 @@ CLAIMED.update({
    note="async set_stream's panic on rejection is covered with C09", ref="6 C18"),
 })
 
+CLAIMED.update({
+ "C07": dict(technique="TLA+ spec of Token::run / Request (Conn.tla: one action per transport call, embedding the two parser specs) model-checked by TLC over scenario menus x transport schedules; every behaviour replayed on the real Token::run with a deterministic executor and offset-scheduled mock transports",
+   text="Conn.tla follows the code await point by await point (parse_request, poll_input, poll_output, StreamWriter, close) with the parser operators of ReqParser/StreamParser inside; the environment chooses how many bytes each read returns and each write accepts. TLC checks OneHandlerPerRequest, EpilogueShape and ReuseIff and prints every behaviour; the harness runs the real Token::run under the same schedule (cuts and spurious Pending by byte offset, closed-loop peer, scripted handler) and compares handler invocations (request, environment, input bytes), the outbound byte stream and whether run() returned. Found the dropped keep-alive connection now recorded in KNOWN_FINDINGS (fixed).",
+   note="single-task executor; transport nondeterminism bounded to MaxCuts partial transfers / MaxPend spurious Pending per behaviour at every offset; handler family is a menu", ref="6 C07"),
+ "C08": dict(technique="TLC invariants NoOwedReplyWhileWaiting / NoWaitCycle on Conn.tla with a closed-loop peer that withholds records until it sees the reply; behaviours replayed on Token::run, predicate re-evaluated on the real byte logs",
+   text="The peer script carries release conditions (gates): everything behind a management query is withheld until the reply has been observed in the bytes written. A suspension on a read with nothing released is exactly the state the property speaks about; TLC checks in every such state that the replies owed for the bytes read have been written, for every placement of the query and every split of reads and writes. Each behaviour is replayed on the real code, where the same predicate is evaluated on the mock transport's logs. With FixA/FixB = FALSE the model reproduces the two genuine defects that were repaired (KNOWN_FINDINGS).",
+   note="mid-record suspensions cannot occur for the peers the property quantifies over (whole records arrive eventually) and are not modelled", ref="6 C08, 7"),
+})
+
 NOT_YET = {}
 
 def main():
